@@ -37,6 +37,77 @@ theorem isJunk_lex (b : Bool) (s : Str) (h : '@' ∉ s) : IsJunk (lexFrom P b s)
   | case5 b c rest hk hc ih =>
     exact isJunk_pushText c _ (ih (fun hm => h (List.mem_cons_of_mem _ hm)))
 
+/-- more generally: text in which no `@` starts a block -/
+theorem isJunk_lex_noStart (b : Bool) (s : Str) (h : noStart P s = true) : IsJunk (lexFrom P b s) := by
+  fun_induction lexFrom P b s with
+  | case1 => simp [IsJunk]
+  | case2 b c rest k hk ih =>
+    have hd : delimKind c = some k := by
+      split at hk
+      · cases hk
+      · exact hk
+    have hne := delimKind_ne_at hd
+    simp only [noStart, Bool.and_eq_true] at h
+    have := ih h.2
+    cases k <;> first | exact absurd rfl hne | simpa [IsJunk, isAtTok] using this
+  | case3 b rest lit r2 hm hk ih =>
+    simp [noStart, hm] at h
+  | case4 b rest hm hk ih =>
+    simp only [noStart, Bool.and_eq_true] at h
+    exact isJunk_pushText _ _ (ih h.2)
+  | case5 b c rest hk hc ih =>
+    simp only [noStart, Bool.and_eq_true] at h
+    exact isJunk_pushText c _ (ih h.2)
+
+theorem noStart_of_not_mem (s : Str) (h : '@' ∉ s) : noStart P s = true := by
+  induction s with
+  | nil => rfl
+  | cons c r ih =>
+    have hc : c ≠ '@' := fun e => h (e ▸ List.mem_cons_self)
+    simp [noStart, hc, ih (fun hm => h (List.mem_cons_of_mem _ hm))]
+
+/-- a prefix without `@` does not matter -/
+theorem noStart_prefix (a s : Str) (ha : '@' ∉ a) : noStart P (a ++ s) = noStart P s := by
+  induction a with
+  | nil => rfl
+  | cons c r ih =>
+    have hc : c ≠ '@' := fun e => ha (e ▸ List.mem_cons_self)
+    simp [noStart, hc, ih (fun hm => ha (List.mem_cons_of_mem _ hm))]
+
+/-- the `@type` alternative tried inside `v` does not see past a following newline -/
+theorem atMatch_append_nl (hw : P.isWord '\n' = false) (v r : Str) :
+    atMatch P (v ++ '\n' :: r) = match atMatch P v with
+      | some (lit, r2) => some (lit, r2 ++ '\n' :: r)
+      | none => none := by
+  rw [atMatch_eq, atMatch_eq]
+  simp only [(takeWhile_append_stop P.isWord v '\n' r hw).1, dropWhile_append_stop P.isWord v '\n' r hw,
+    (takeWhile_append_stop isBlank (v.dropWhile P.isWord) '\n' r (by decide)).1,
+    dropWhile_append_stop isBlank (v.dropWhile P.isWord) '\n' r (by decide)]
+  cases hr : (v.dropWhile P.isWord).dropWhile isBlank with
+  | nil => simp
+  | cons c t =>
+    by_cases hc : c = '{'
+    · subst hc; simp
+    · simp [hc]
+
+/-- a text in which no `@` starts a block stays so when a newline (and anything harmless) follows -/
+theorem noStart_append_nl (hw : P.isWord '\n' = false) (a X : Str) (ha : noStart P a = true)
+    (hX : noStart P X = true) : noStart P (a ++ '\n' :: X) = true := by
+  induction a with
+  | nil => simpa [noStart] using hX
+  | cons c r ih =>
+    simp only [noStart, Bool.and_eq_true] at ha
+    simp only [List.cons_append, noStart, Bool.and_eq_true]
+    refine ⟨?_, ih ha.2⟩
+    by_cases hc : c = '@'
+    · subst hc
+      have h1 : (atMatch P r).isNone = true := by simpa using ha.1
+      rw [atMatch_append_nl hw]
+      cases hm : atMatch P r with
+      | none => simp
+      | some x => rw [hm] at h1; cases h1
+    · simp [hc]
+
 /-! ### simple pieces -/
 
 theorem simpleText_of_blank {s : Str} (h : ∀ c ∈ s, isBlank c = true) : SimpleText s := by
@@ -54,17 +125,32 @@ theorem simpleText_lineHead (F : BibtexFormat) (hF : FormatOK F) (col : Nat) (ke
 theorem lineHead_ne_nil (F : BibtexFormat) (col : Nat) (key : Str) : lineHead F col key ≠ [] := by
   simp [lineHead]
 
-/-- `head = {v}` followed by anything: the five-token shape of a field / @string assignment -/
-theorem lex_assign (b : Bool) (t : Str) (ht : SimpleText t) (hne : t ≠ []) (v : Str) (hv : CleanVal P v)
+/-- `key = {v}}` of an @string: the tokens of the enclosed value are whatever `EncBal` says -/
+theorem lex_assign_str (b : Bool) (t : Str) (ht : SimpleText t) (hne : t ≠ []) (v : Str) (hv : EncBal P v)
     (rest : Str) :
-    lexFrom P b (t ++ '=' :: ' ' :: '{' :: (v ++ '}' :: rest)) =
-      .text t :: EQ :: (valToks P v ++ lexFrom P false rest) := by
-  have hsp : SimpleText [' '] := by intro c hc; simp at hc; subst hc; decide
+    lexFrom P b (t ++ '=' :: ' ' :: '{' :: (v ++ '}' :: '}' :: rest)) =
+      .text t :: EQ :: (valToks P v ++ lexFrom P false ('}' :: rest)) := by
+  have hsp : SimpleText [' '] := by intro x hx; simp at hx; subst hx; decide
   rw [lex_simple_delim P b t '=' .eq _ ht hne (by decide)]
-  rw [show (' ' :: '{' :: (v ++ '}' :: rest)) = [' '] ++ '{' :: (v ++ '}' :: rest) from rfl,
-    lex_simple_delim P false [' '] '{' .lbrace _ hsp (by simp) (by decide),
-    (vtOf_spec hv).2.2 rest, lex_delim P '}' .rbrace rest (by decide)]
-  simp [valToks, SPt, LB, RB, EQ]
+  have hm : startsWithMark (lexFrom P false ('{' :: (v ++ '}' :: '}' :: rest))) := by
+    rw [lex_delim P '{' .lbrace _ (by decide)]; trivial
+  rw [show (' ' :: '{' :: (v ++ '}' :: '}' :: rest)) = [' '] ++ '{' :: (v ++ '}' :: '}' :: rest) from rfl,
+    lex_simple P false [' '] _ hsp (by simp) hm, (sevtOf_spec hv).2.2 rest]
+  simp [valToks, SPt, EQ]
+
+/-- `head = {v}` of a field line, followed by the comma or newline the writer emits: the tokens of the
+enclosed value are whatever `EncVal` says (a `Value` of the grammar) -/
+theorem lex_assign_field (b : Bool) (t : Str) (ht : SimpleText t) (hne : t ≠ []) (v : Str) (hv : EncVal P v)
+    (c : Char) (r : Str) (hc : c = ',' ∨ c = '\n') :
+    lexFrom P b (t ++ '=' :: ' ' :: '{' :: (v ++ '}' :: c :: r)) =
+      .text t :: EQ :: (fvalToks P v ++ lexFrom P false (c :: r)) := by
+  have hsp : SimpleText [' '] := by intro x hx; simp at hx; subst hx; decide
+  rw [lex_simple_delim P b t '=' .eq _ ht hne (by decide)]
+  have hm : startsWithMark (lexFrom P false ('{' :: (v ++ '}' :: c :: r))) := by
+    rw [lex_delim P '{' .lbrace _ (by decide)]; trivial
+  rw [show (' ' :: '{' :: (v ++ '}' :: c :: r)) = [' '] ++ '{' :: (v ++ '}' :: c :: r) from rfl,
+    lex_simple P false [' '] _ hsp (by simp) hm, (evtOf_spec hv).2.2 c r hc]
+  simp [fvalToks, SPt, EQ]
 
 /-! ### the field lines of an entry -/
 
@@ -72,7 +158,7 @@ theorem lex_assign (b : Bool) (t : Str) (ht : SimpleText t) (hne : t ≠ []) (v 
 noncomputable def linesToks (P : PyChars) (F : BibtexFormat) (col : Nat) : List Field → List Tok
   | [] => []
   | f :: fs =>
-    .text (lineHead F col f.key) :: EQ :: (valToks P (strOf f.value) ++
+    .text (lineHead F col f.key) :: EQ :: (fvalToks P (strOf f.value) ++
       ((if F.trailingComma || !fs.isEmpty then [CM] else []) ++ NLt :: linesToks P F col fs))
 
 theorem lex_lines (F : BibtexFormat) (hF : FormatOK F) (col : Nat) (fs : List Field)
@@ -89,14 +175,16 @@ theorem lex_lines (F : BibtexFormat) (hF : FormatOK F) (col : Nat) (fs : List Fi
         = lineHead F col f.key ++ '=' :: ' ' :: '{' :: (v ++ '}' ::
           ((if (F.trailingComma || !fs.isEmpty) = true then [','] else []) ++ '\n' :: (linesText F col fs ++ rest))) := by
       simp
-    rw [hre, lex_assign false _ (simpleText_lineHead F hF col f.key (hfs f List.mem_cons_self).keySimple)
-      (lineHead_ne_nil F col f.key) v hclean]
     by_cases hc : (F.trailingComma || !fs.isEmpty) = true
-    · simp only [hc, ↓reduceIte, List.cons_append, List.nil_append]
-      rw [lex_delim P ',' .comma _ (by decide), lex_delim P '\n' .nl _ (by decide), ih']
+    · simp only [hc, ↓reduceIte, List.cons_append, List.nil_append] at hre ⊢
+      rw [hre, lex_assign_field false _ (simpleText_lineHead F hF col f.key (hfs f List.mem_cons_self).keySimple)
+        (lineHead_ne_nil F col f.key) v hclean ',' _ (Or.inl rfl),
+        lex_delim P ',' .comma _ (by decide), lex_delim P '\n' .nl _ (by decide), ih']
       simp [CM, NLt]
-    · simp only [hc, Bool.false_eq_true, ↓reduceIte, List.nil_append]
-      rw [lex_delim P '\n' .nl _ (by decide), ih']
+    · simp only [hc, Bool.false_eq_true, ↓reduceIte, List.nil_append] at hre ⊢
+      rw [hre, lex_assign_field false _ (simpleText_lineHead F hF col f.key (hfs f List.mem_cons_self).keySimple)
+        (lineHead_ne_nil F col f.key) v hclean '\n' _ (Or.inr rfl),
+        lex_delim P '\n' .nl _ (by decide), ih']
       simp [NLt]
 
 /-- regrouping: `, NL line₁ … lineₙ }` is `afterFields` of the field sources -/
@@ -113,7 +201,7 @@ theorem linesToks_afterFields (F : BibtexFormat) (col : Nat) (fs : List Field) :
       induction gs generalizing g with
       | nil =>
         cases htc : F.trailingComma <;>
-          simp [linesToks, fieldSrcs, afterFields, htc, valToks]
+          simp [linesToks, fieldSrcs, afterFields, htc, fvalToks]
       | cons g2 gs ih =>
         have := ih g2
         simp only [linesToks, fieldSrcs, afterFields, List.isEmpty_cons, Bool.not_false, Bool.or_true,
@@ -153,7 +241,7 @@ theorem lex_entry_core (hP : PrintOK P) (F : BibtexFormat) (hF : FormatOK F) (co
     simp [srcOf, hke, BlockSrc.toks, AT, LB]
 
 theorem lex_string_core (hP : PrintOK P) (F : BibtexFormat) (col : Nat) (k : Str) (v : Str) (l : Int) (r : Str)
-    (m : MetaD) (hk : SimpleText k) (hv : CleanVal P v) (b : Bool) (rest : Str) :
+    (m : MetaD) (hk : SimpleText k) (hv : EncBal P v) (b : Bool) (rest : Str) :
     lexFrom P b (coreOf F col (.live (.string k (.str v) l r m)) ++ rest) =
       (srcOf P F col (.live (.string k (.str v) l r m))).toks ++ lexFrom P false rest := by
   have hre : coreOf F col (.live (.string k (.str v) l r m)) ++ rest =
@@ -162,7 +250,7 @@ theorem lex_string_core (hP : PrintOK P) (F : BibtexFormat) (col : Nat) (k : Str
   have hks : SimpleText (k ++ [' ']) :=
     simpleText_append hk (by intro c hc; simp at hc; subst hc; decide)
   rw [hre, lex_at_type P hP.word b _ _ (kw_word hP _ (by decide)),
-    lex_assign false _ hks (by simp) v hv, lex_delim P '}' .rbrace rest (by decide)]
+    lex_assign_str false _ hks (by simp) v hv, lex_delim P '}' .rbrace rest (by decide)]
   simp [srcOf, BlockSrc.toks, strOf, AT, LB, RB, EQ]
 
 theorem lex_bracket_core (hP : PrintOK P) (kwd : Str) (hkw : ∀ c ∈ kwd, c ∈ kwLetters) (v : Str)
